@@ -39,7 +39,7 @@ class Cell:
 
     def __init__(self, cid, prog, inputs, pre=None, budget=400, family='',
                  ref=True, inkeys=0, peeks=0, note='', tags=(), strlen=None,
-                 slow=False):
+                 slow=False, impl='sym'):
         self.cid = cid
         self.prog = prog
         self.inputs = inputs      # [(type_char, sentinel)]
@@ -53,6 +53,7 @@ class Cell:
         self.tags = tuple(tags)
         self.strlen = strlen
         self.slow = slow
+        self.impl = impl
         self.text = to_text(prog)
 
     def params(self):
@@ -111,7 +112,7 @@ def run_impl(cell, cfg, xs, per_tick=None, abstract=True):
     rope.set_abstract(abstract)
     trace, out, machine = run_program(
         cell.text, opt, dbg, cell.budget, impl_seeds or None,
-        per_tick=per_tick, catch_host_exc=True,
+        per_tick=per_tick, catch_host_exc=True, impl_kind=cell.impl,
         inkeys=inkeys, peeks=peeks)
     return trace, out, machine
 
@@ -168,3 +169,234 @@ def describe(cid, cfg, *xs):
         rtrace, res, it = run_ref(cell, xs)
         lines += ['ref trace: %r' % (rtrace,), 'ref outcome: %r' % (res,)]
     return '\n'.join(lines)
+
+
+# ---------------------------------------------------------------------
+# C08: debug info does not change behaviour
+# ---------------------------------------------------------------------
+
+def _sections(bcode):
+    """Split a module image into {section_id: bytes}."""
+    import struct
+    out = {}
+    i = 0
+    while i < len(bcode):
+        sid = bcode[i]
+        n, = struct.unpack('>I', bcode[i + 1:i + 5])
+        out[sid] = bcode[i + 5:i + 5 + n]
+        i += 5 + n
+    return out
+
+
+def check_dbg_pair(cid, opt, *xs):
+    """-g vs no -g at optimisation level opt: sections 1-3 identical (and
+    the code section too), trace and outcome equal for all inputs."""
+    cell = CATALOG[cid]
+    _, b0, _ = compile_program(cell.text, opt, False)
+    _, b1, _ = compile_program(cell.text, opt, True)
+    s0, s1 = _sections(b0), _sections(b1)
+    for sid in (1, 2, 3):
+        if s0.get(sid) != s1.get(sid):
+            return 0
+    ta, oa, _ = run_impl(cell, (opt, False), xs)
+    tb, ob, _ = run_impl(cell, (opt, True), xs)
+    if oa.key() != ob.key():
+        return 0
+    if not trace_equal(ta, tb):
+        return 0
+    return 1
+
+
+# ---------------------------------------------------------------------
+# C03: type- and stack-safety monitor
+# ---------------------------------------------------------------------
+
+_TYPE_OF_CHAR = {'%': CellType.INTEGER, '&': CellType.LONG,
+                 '!': CellType.SINGLE, '#': CellType.DOUBLE,
+                 '$': CellType.STRING, '@': CellType.REFERENCE}
+_static_cache = {}
+_NOT_STATEMENTS = ('SimpleCaseClause', 'RangeCaseClause',
+                   'CompareCaseClause', 'ArrayDimRange', 'VarDeclClause',
+                   'AnyVarDeclClause', 'ElseClause', 'PrintSep')
+
+
+def _module_static(module):
+    """Instruction starts and statement starts of a module (concrete)."""
+    key = id(module)
+    if key in _static_cache:
+        return _static_cache[key]
+    from crosshair.tracers import NoTracing
+    from qvm.instrs import op_code_to_instr
+    with NoTracing():
+        starts = set()
+        frame_targets = set()
+        i = 0
+        code = module.code
+        while i < len(code):
+            starts.add(i)
+            instr = op_code_to_instr.get(code[i])
+            if instr is None:
+                break
+            size = 1 + sum(o.size for o in instr.operands)
+            if instr.op == 'frame':
+                frame_targets.add(i)
+            i += size
+        stmt_starts = set()
+        if module.debug_info is not None:
+            for rec in module.debug_info.stmts:
+                # clause / declaration nodes subclass Stmt in qbee but are
+                # parts of a statement, not statements
+                if type(rec.node).__name__ in _NOT_STATEMENTS:
+                    continue
+                if rec.end_offset > rec.start_offset:
+                    stmt_starts.add(rec.start_offset)
+        res = (starts, len(code), stmt_starts, frame_targets)
+    _static_cache[key] = res
+    return res
+
+
+class SafetyMonitor:
+    """Run-time monitor for C03, called after every tick."""
+
+    def __init__(self, module):
+        self.starts, self.code_len, self.stmt_starts, self.frame_at = \
+            _module_static(module)
+        self.cell_types = {}     # (id(segment), idx) -> CellType
+        self.segs = {}           # keep segments alive: id -> segment
+        self.frame_depth = {}    # id(frame) -> depth at entry
+        self.gosubs = {}         # id(frame) -> active gosubs
+        self.violation = None
+
+    def fail(self, why):
+        if self.violation is None:
+            self.violation = why
+
+    def __call__(self, cpu, ticks):
+        from crosshair.tracers import NoTracing
+        with NoTracing():
+            self._check(cpu)
+
+    def _check(self, cpu):
+        if self.violation is not None:
+            return
+        if cpu.halted:
+            if cpu.last_trap in MACHINE_FAULTS and \
+                    cpu.halt_reason == HaltReason.TRAP:
+                self.fail('machine fault %s' % cpu.last_trap.name)
+            return
+        pc = cpu.pc
+        if pc not in self.starts and pc != self.code_len:
+            self.fail('pc %d is not an instruction start' % pc)
+            return
+        # the instruction just executed
+        prev = cpu.prev_pc
+        instr, operands, size = cpu.get_instruction_at(prev)
+        op = instr.op if instr is not None else ''
+        fr = cpu.cur_frame
+        if op == 'frame':
+            self.frame_depth[id(fr)] = len(cpu.stack)
+            self.gosubs[id(fr)] = 0
+            self.segs[id(fr)] = fr
+        elif op == 'call':
+            if pc not in self.frame_at:
+                self.gosubs[id(fr)] = self.gosubs.get(id(fr), 0) + 1
+        elif op == 'ijmp' or (op == 'pop'):
+            # RETURN / RETURN label
+            self.gosubs[id(fr)] = self.gosubs.get(id(fr), 0) - 1
+        # (ii) typed reads push the declared type
+        base = op.rstrip('%&!#$@')
+        if base in ('readl', 'readg', 'readidxl', 'readidxg', 'deref') \
+                and op[-1] in _TYPE_OF_CHAR and cpu.stack \
+                and pc == prev + size:
+            want = _TYPE_OF_CHAR[op[-1]]
+            got = cpu.stack[-1].type
+            if got != want:
+                self.fail('%s pushed a %s' % (op, got.name))
+                return
+        # (i) type stability of storage
+        segs = [cpu.globals_segment]
+        f = fr
+        while f is not None:
+            segs.append(f)
+            f = f.prev_frame
+        extra = []
+        for seg in segs:
+            for c in seg.cells:
+                if c is not None and c.type == CellType.REFERENCE:
+                    s2 = c.value.segment
+                    if all(s2 is not s for s in segs) and \
+                            all(s2 is not s for s in extra):
+                        extra.append(s2)
+        for seg in segs + extra:
+            self.segs[id(seg)] = seg
+            for i, c in enumerate(seg.cells):
+                if c is None or c.type == CellType.REFERENCE:
+                    continue
+                k = (id(seg), i)
+                old = self.cell_types.get(k)
+                if old is None:
+                    self.cell_types[k] = c.type
+                elif old != c.type:
+                    self.fail('cell %d of %r changed type %s -> %s' % (
+                        i, seg, old.name, c.type.name))
+                    return
+        # stack depth at statement boundaries (-g builds only)
+        # (skipped at a routine's first instruction: its frame does not
+        # exist yet; and once a trap has been dispatched to an ON ERROR
+        # handler -- leftovers of the interrupted statement are C10's
+        # subject, see known_findings.json)
+        if pc in self.stmt_starts and fr is not None and \
+                pc not in self.frame_at and cpu.last_trap is None and \
+                id(fr) in self.frame_depth:
+            want = self.frame_depth[id(fr)] + self.gosubs.get(id(fr), 0)
+            if len(cpu.stack) != want:
+                self.fail('stack depth %d at statement start %d, '
+                          'expected %d' % (len(cpu.stack), pc, want))
+
+
+def check_safety(cid, cfg, *xs):
+    """C03: no machine-level fault, type-stable storage, typed reads, valid
+    control transfers, clean stack at statement boundaries."""
+    cell = CATALOG[cid]
+    opt, dbg = CONFIGS[cfg]
+    _, _, module = compile_program(cell.text, opt, dbg)
+    mon = SafetyMonitor(module)
+    trace, out, machine = run_impl(cell, cfg, xs, per_tick=mon)
+    if out.exc is not None:
+        return 0
+    if out.halt == HaltReason.TRAP and out.trap in MACHINE_FAULTS:
+        return 0
+    if mon.violation is not None:
+        return 0
+    return 1
+
+
+def safety_reason(cid, cfg, *xs):
+    cell = CATALOG[cid]
+    opt, dbg = CONFIGS[cfg]
+    _, _, module = compile_program(cell.text, opt, dbg)
+    mon = SafetyMonitor(module)
+    trace, out, machine = run_impl(cell, cfg, xs, per_tick=mon)
+    return (mon.violation, out)
+
+
+# ---------------------------------------------------------------------
+# C07: VM totality
+# ---------------------------------------------------------------------
+
+def check_total(cid, cfg, *xs):
+    """Every run ends in a defined state: no host exception, halted by
+    instruction / end of code / trap; when the cell has reference semantics
+    the trap class must match the cause."""
+    cell = CATALOG[cid]
+    trace, out, machine = run_impl(cell, cfg, xs)
+    if out.exc is not None:
+        return 0
+    if out.halt not in (HaltReason.INSTRUCTION, HaltReason.END_OF_CODE,
+                        HaltReason.TRAP):
+        return 0
+    if cell.ref:
+        rtrace, res, _ = run_ref(cell, xs)
+        if not outcome_matches(out, res):
+            return 0
+    return 1
